@@ -2,6 +2,7 @@ package h
 
 import (
 	sdk "github.com/cosmos/cosmos-sdk/types"
+	tmbytes "github.com/tendermint/tendermint/libs/bytes"
 
 	service "github.com/irismod/service"
 	"github.com/irismod/service/types"
@@ -74,6 +75,19 @@ func sceneNewBatch(o ReqOpts) {
 				chk("C07", req.ServiceFee.AmountOf(Denom).LTE(sdk.MaxInt(s.Binds[i].Pricing.Price.AmountOf(Denom), sdk.OneInt())), "fee-at-most-base-price")
 			}
 			idx++
+		}
+		// the issue event: off-chain clients find a request again by its position in this list, which is the index in its id
+		evs := eventsOf(ctx, types.EventTypeNewBatchRequest)
+		chk("C18 C12", len(evs) == 1, "one-issue-event-per-batch")
+		if len(evs) == 1 {
+			payload, _ := attrOf(evs[0], types.AttributeKeyRequests)
+			cid, _ := attrOf(evs[0], types.AttributeKeyRequestContextID)
+			listed := vf.JSONRequests(payload)
+			chk("C18 C12", vf.And(len(listed) == cnt, cid == tmbytes.HexBytes(id).String()), "issue-event-lists-every-request-of-the-context")
+			for i := 0; i < len(listed) && i < cnt; i++ {
+				stored, ok := k.GetCompactRequest(ctx, types.GenerateRequestID(id, bc+1, s.H, int16(i)))
+				chk("C18", vf.And(ok, sameCompact(listed[i], stored)), "request-id-index-is-the-position-in-the-issue-event")
+			}
 		}
 		if pre.SuperMode {
 			chk("C07 C02 C05", balC1.Equal(s.BalC0), "super-no-debit")
@@ -179,6 +193,22 @@ func sceneExpiry(o ReqOpts) {
 	chk("C03 C04", s.DepAcc0.Sub(vf.ModuleBalance(types.DepositAccName)).Equal(burned), "deposit-account-loses-slashed")
 	chk("C03 C04", s.Supply0.Sub(vf.Supply()).Equal(burned), "slashed-coins-burned")
 	chk("C02", vf.ModuleBalance("fee_collector").Equal(s.Collector0), "no-tax-at-expiry")
+	// one slash event per failure, naming the failed request and its provider
+	sl := eventsOf(ctx, types.EventTypeServiceSlash)
+	nFail := 0
+	for j := 0; j < s.M; j++ {
+		if s.Active[j] && !pre.SuperMode {
+			nFail++
+			named := false
+			for _, e := range sl {
+				er, _ := attrOf(e, types.AttributeKeyRequestID)
+				ep, _ := attrOf(e, types.AttributeKeyProvider)
+				named = vf.Or(named, vf.And(er == s.ReqIDs[j].String(), ep == s.Provs[j].String()))
+			}
+			chk("C04", named, "slash-event-names-the-failed-request-and-its-provider")
+		}
+	}
+	chk("C04", len(sl) == nFail, "one-slash-event-per-failure")
 
 	// ---- clean-up: nothing of the batch remains
 	nreq, nresp, nact := countRecords(k, ctx, id, bc)
